@@ -391,6 +391,22 @@ class CondEval(Evaluator):
             k = self.ev(node.args[1])
             if isinstance(p, PointV) and isinstance(k, Opaque) and k.tag == "block":
                 return PointV({("P", k.payload, a): v for a, v in p.d.items()})
+        # a callback that delegates to another callback of the same object (own or inherited): evaluate that one on the same samples
+        f = node.func
+        target = None
+        if isinstance(f, ast.Attribute) and isinstance(f.value, ast.Name) and f.value.id == "self":
+            target = self.cls.find_method(f.attr)
+        elif isinstance(f, ast.Attribute) and isinstance(f.value, ast.Call) and isinstance(f.value.func, ast.Name) and f.value.func.id == "super":
+            for b in self.cls.mro()[1:]:
+                if f.attr in b.methods:
+                    target = b.methods[f.attr]
+                    break
+        if target is not None and not node.keywords and getattr(self, "depth", 0) < 3:
+            args = [self.ev(a) for a in node.args]
+            sub_depth = getattr(self, "depth", 0) + 1
+            v, used = _eval_callback_once(self.cls, target, args, self.attr_sorts, depth=sub_depth, want_used=True)
+            self.used_attrs |= used
+            return v
         raise AnalysisError("call %s outside the analysed fragment" % src(node))
 
 
@@ -411,7 +427,7 @@ def eval_callback(cls, fn, bound_args, attr_sorts=None):
     raise AnalysisError("cannot sort the attributes of %s.%s" % (cls.name, fn.name))
 
 
-def _eval_callback_once(cls, fn, bound_args, attr_sorts):
+def _eval_callback_once(cls, fn, bound_args, attr_sorts, depth=0, want_used=False):
     params = params_of(fn)
     is_static = any(isinstance(d, ast.Name) and d.id == "staticmethod" for d in fn.decorator_list)
     if not is_static:
@@ -420,6 +436,7 @@ def _eval_callback_once(cls, fn, bound_args, attr_sorts):
         raise AnalysisError("%s.%s takes %d sample components, the generator passes %d"
                             % (cls.name, fn.name, len(params), len(bound_args)))
     ev = CondEval(cls, dict(zip(params, bound_args)), attr_sorts)
+    ev.depth = depth
     try:
         for st in fn.body:
             if isinstance(st, ast.Assign) and len(st.targets) == 1:
@@ -429,7 +446,7 @@ def _eval_callback_once(cls, fn, bound_args, attr_sorts):
                 v = ev.ev(st.value)
                 if not isinstance(v, ConsV):
                     raise AnalysisError("%s.%s does not return a comparison of expressions" % (cls.name, fn.name))
-                return v
+                return (v, set(ev.used_attrs)) if want_used else v
             elif isinstance(st, ast.Pass):
                 continue
             else:
